@@ -81,6 +81,8 @@ pub struct Select {
     pub order_by: Vec<(usize, bool)>,
     pub limit: Option<u64>,
     pub offset: Option<u64>,
+    /// HAVING, over the aggregate row (keys, then aggregates) — like `items` in an aggregate query
+    pub having: Option<E>,
 }
 
 #[derive(Clone, Debug)]
@@ -301,6 +303,10 @@ pub fn show_stmt(s: &Stmt) -> String {
                     show_expr(e, &mut out)
                 }
             }
+            if let Some(h) = &q.having {
+                out.push("hv".into());
+                show_expr(h, &mut out);
+            }
             match &q.items {
                 None => out.push("star".into()),
                 Some(es) => {
@@ -375,6 +381,9 @@ fn num_after(pre: &str, w: &str) -> Option<usize> {
     }
     r.parse().ok()
 }
+
+/// aggregate functions of the case syntax; the `…d` forms are AGG(DISTINCT …)
+pub const AGG_FNS: [&str; 11] = ["cnt*", "cnt", "sum", "avg", "min", "max", "cntd", "sumd", "avgd", "mind", "maxd"];
 
 const CMP_OPS: [&str; 6] = ["eq", "ne", "lt", "le", "gt", "ge"];
 const ARITH_OPS: [&str; 5] = ["add", "sub", "mul", "div", "mod"];
@@ -517,11 +526,16 @@ fn p_stmt(db: &[Table], ws: &[&str]) -> Option<Stmt> {
             let mut aggs = Vec::new();
             for _ in 0..na {
                 let f = t.next()?;
-                let f = ["cnt*", "cnt", "sum", "avg", "min", "max"].iter().find(|x| **x == f)?;
+                let f = AGG_FNS.iter().find(|x| **x == f)?;
                 let arg = if *f == "cnt*" { None } else { Some(p_expr(&mut t)?) };
                 aggs.push(Agg { f, arg });
             }
-            let p = t.next()?;
+            let mut p = t.next()?;
+            let mut having = None;
+            if p == "hv" {
+                having = Some(p_expr(&mut t)?);
+                p = t.next()?;
+            }
             let items = if p == "star" {
                 None
             } else {
@@ -544,7 +558,7 @@ fn p_stmt(db: &[Table], ws: &[&str]) -> Option<Stmt> {
             }
             let limit = p_opt_nat("lim", &mut t)?;
             let offset = p_opt_nat("off", &mut t)?;
-            Stmt::Select(Select { distinct, from, where_, group_by, aggs, items, order_by, limit, offset })
+            Stmt::Select(Select { distinct, from, where_, group_by, aggs, items, order_by, limit, offset, having })
         }
         "ins" => {
             let tb = num_after("t", t.next()?)?;
@@ -765,20 +779,46 @@ pub fn sql_stmt(s: &Stmt, db: &[Table]) -> String {
                 format!("r0.c{}", i)
             };
             let mut out_exprs: Vec<String> = Vec::new();
-            let items: String = if !q.aggs.is_empty() {
-                let mut parts: Vec<String> = q.group_by.iter().map(|e| sql_expr(e, 1, &col)).collect();
+            let is_agg = !q.aggs.is_empty() || !q.group_by.is_empty();
+            // the aggregate row: group keys (in parentheses unless a bare column), then the aggregate calls
+            let mut agg_row: Vec<String> = Vec::new();
+            if is_agg {
+                for k in &q.group_by {
+                    let t = sql_expr(k, 1, &col);
+                    agg_row.push(if matches!(k, E::Col(_) | E::Lit(_)) { t } else { format!("({})", t) });
+                }
                 for a in &q.aggs {
-                    parts.push(match (a.f, &a.arg) {
-                        ("cnt*", _) | (_, None) => "COUNT(*)".to_string(),
-                        ("cnt", Some(e)) => format!("COUNT({})", sql_expr(e, 1, &col)),
-                        ("sum", Some(e)) => format!("SUM({})", sql_expr(e, 1, &col)),
-                        ("avg", Some(e)) => format!("AVG({})", sql_expr(e, 1, &col)),
-                        ("min", Some(e)) => format!("MIN({})", sql_expr(e, 1, &col)),
-                        (_, Some(e)) => format!("MAX({})", sql_expr(e, 1, &col)),
+                    let (name, distinct) = match a.f {
+                        "cnt*" | "cnt" => ("COUNT", false),
+                        "cntd" => ("COUNT", true),
+                        "sum" => ("SUM", false),
+                        "sumd" => ("SUM", true),
+                        "avg" => ("AVG", false),
+                        "avgd" => ("AVG", true),
+                        "min" => ("MIN", false),
+                        "mind" => ("MIN", true),
+                        "max" => ("MAX", false),
+                        _ => ("MAX", true),
+                    };
+                    agg_row.push(match &a.arg {
+                        None => "COUNT(*)".to_string(),
+                        Some(e) => format!("{}({}{})", name, if distinct { "DISTINCT " } else { "" }, sql_expr(e, 1, &col)),
                     });
                 }
-                out_exprs = parts.clone();
-                parts.join(", ")
+            }
+            let agg_row2 = agg_row.clone();
+            let agg_col = move |i: usize| -> String { agg_row2.get(i).cloned().unwrap_or_else(|| "NULL".into()) };
+            let items: String = if is_agg {
+                out_exprs = match &q.items {
+                    None => q
+                        .group_by
+                        .iter()
+                        .map(|k| sql_expr(k, 1, &col))
+                        .chain(agg_row[q.group_by.len()..].iter().cloned())
+                        .collect(),
+                    Some(es) => es.iter().map(|e| sql_expr(e, 1, &agg_col)).collect(),
+                };
+                out_exprs.join(", ")
             } else {
                 match &q.items {
                     None => {
@@ -806,6 +846,9 @@ pub fn sql_stmt(s: &Stmt, db: &[Table]) -> String {
                     " GROUP BY {}",
                     q.group_by.iter().map(|e| sql_expr(e, 1, &col)).collect::<Vec<_>>().join(", ")
                 );
+            }
+            if let (true, Some(h)) = (is_agg, &q.having) {
+                sql += &format!(" HAVING {}", sql_expr(h, 1, &agg_col));
             }
             if !q.order_by.is_empty() {
                 let parts: Vec<String> = q
@@ -1192,7 +1235,12 @@ impl<'a> Gen<'a> {
             self.tag("lit.null");
             return E::Lit(Val::Null);
         }
-        E::Lit(self.val(ty, p, false))
+        // 2^63 - 1 is not an f64: as a literal it only works through the saturating cast of the binder, and
+        // `- 9223372036854775807` is folded to -2^63 by the parser (numbers are lexed as f64: documented assumption)
+        match self.val(ty, p, false) {
+            Val::Int(v) if v == I64_MAX => E::Lit(Val::Int(1 << 62)),
+            v => E::Lit(v),
+        }
     }
 
     fn cols_of(&self, tys: &[Ty], want: &[Ty]) -> Vec<usize> {
@@ -1529,7 +1577,7 @@ impl<'a> Gen<'a> {
         let kind = self.rng.below(10); // < 3: aggregate query
         let order_kind = self.rng.below(10); // < 3 partial order, < 6 total order (+ limit), else none
         let limit_kind = self.rng.below(4);
-        let has_limit = kind >= 3 && (3..6).contains(&order_kind) && limit_kind < 3;
+        let has_limit = (3..6).contains(&order_kind) && limit_kind < 3;
         // the one clause that may raise an arithmetic error: 0 = none, 1 = WHERE, 2 = output (items / keys), 3 = aggregate arguments
         let risky = if multi {
             0
@@ -1557,27 +1605,52 @@ impl<'a> Gen<'a> {
             order_by: vec![],
             limit: None,
             offset: None,
+            having: None,
         };
+        let nout;
+        // output columns holding an AVG (a double): not usable as sort keys by the comparator of the harness
+        let mut avg_out: Vec<usize> = Vec::new();
         if kind < 3 {
             // aggregate query
             self.tag("agg");
             self.safe_arith = risky != 2;
+            // kinds of the columns of the aggregate row: i integer, t text, b boolean, s SUM (a double in the engine:
+            // compared, never divided), v AVG (only shown)
+            let mut kinds: Vec<char> = Vec::new();
+            let kind_of = |t: Ty| match t {
+                Ty::Int | Ty::BigInt => 'i',
+                Ty::Text => 't',
+                Ty::Bool => 'b',
+            };
             let nkeys = self.rng.below(3) as usize;
             for _ in 0..nkeys {
                 let k = match self.rng.below(4) {
-                    0 => self.int_expr(&tys, p, 1),
-                    _ => E::Col(self.rng.below(tys.len() as u64) as usize),
+                    0 => {
+                        kinds.push('i');
+                        self.int_expr(&tys, p, 1)
+                    }
+                    _ => {
+                        let c = self.rng.below(tys.len() as u64) as usize;
+                        kinds.push(kind_of(tys[c]));
+                        E::Col(c)
+                    }
                 };
                 q.group_by.push(k);
             }
             self.tag(&format!("groupby.{}", nkeys));
             self.safe_arith = risky != 3;
             let small = p != Profile::Boundary;
-            for _ in 0..(1 + self.rng.below(3)) {
-                let f = *self.rng.pick(&["cnt*", "cnt", "sum", "avg", "min", "max"]);
+            let naggs = if nkeys > 0 && self.rng.chance(1, 8) { 0 } else { 1 + self.rng.below(3) };
+            if naggs == 0 {
+                self.tag("agg.none");
+            }
+            for _ in 0..naggs {
+                let f = *self.rng.pick(&["cnt*", "cnt", "sum", "avg", "min", "max", "cntd", "cntd", "sumd", "avgd", "mind"]);
+                let mut kind = 'i';
                 let arg = match f {
                     "cnt*" => None,
-                    "sum" | "avg" => {
+                    "sum" | "avg" | "sumd" | "avgd" => {
+                        kind = if f.starts_with("sum") { 's' } else { 'v' };
                         if small {
                             Some(self.int_expr(&tys, p, 1))
                         } else {
@@ -1588,17 +1661,90 @@ impl<'a> Gen<'a> {
                     }
                     _ => Some(match self.rng.below(3) {
                         0 => self.int_expr(&tys, p, 1),
-                        _ => E::Col(self.rng.below(tys.len() as u64) as usize),
+                        _ => {
+                            let c = self.rng.below(tys.len() as u64) as usize;
+                            if f.starts_with("m") {
+                                kind = kind_of(tys[c]);
+                            }
+                            E::Col(c)
+                        }
                     }),
                 };
+                kinds.push(kind);
                 self.tag(&format!("agg.{}", f));
                 q.aggs.push(Agg { f, arg });
             }
-            return q;
-        }
+            // expressions over the aggregate row: never failing (small counts and values), SUM only compared
+            let numeric: Vec<usize> =
+                (0..kinds.len()).filter(|i| kinds[*i] == 'i' && (small || *i >= nkeys && q.aggs[*i - nkeys].f.starts_with("cnt"))).collect();
+            let comparable: Vec<usize> = (0..kinds.len()).filter(|i| kinds[*i] == 'i' || kinds[*i] == 's').collect();
+            let over_row = |g: &mut Self, want_bool: bool| -> E {
+                if want_bool && comparable.is_empty() {
+                    let c = g.rng.below(kinds.len() as u64) as usize;
+                    return E::IsNull(g.rng.chance(1, 2), Box::new(E::Col(c)));
+                }
+                if want_bool {
+                    let c = *g.rng.pick(&comparable);
+                    let op = *g.rng.pick(&CMP_OPS);
+                    let lit = E::Lit(Val::Int(g.rng.range(-2, 4) as i128));
+                    if g.rng.chance(1, 5) {
+                        return E::IsNull(g.rng.chance(1, 2), Box::new(E::Col(c)));
+                    }
+                    return E::Cmp(op, Box::new(E::Col(c)), Box::new(lit));
+                }
+                if !numeric.is_empty() && g.rng.chance(1, 2) {
+                    let c = *g.rng.pick(&numeric);
+                    let op = *g.rng.pick(&["add", "sub", "mul"]);
+                    let lit = E::Lit(Val::Int(g.rng.range(1, 3) as i128));
+                    return if g.rng.chance(1, 2) {
+                        E::Arith(op, Box::new(E::Col(c)), Box::new(lit))
+                    } else {
+                        E::Arith(op, Box::new(lit), Box::new(E::Col(c)))
+                    };
+                }
+                E::Col(g.rng.below(kinds.len() as u64) as usize)
+            };
+            if self.rng.chance(1, 3) {
+                self.tag("having");
+                let h = over_row(self, true);
+                q.having = Some(if self.rng.chance(1, 3) {
+                    let h2 = over_row(self, true);
+                    if self.rng.chance(1, 2) { E::And(Box::new(h), Box::new(h2)) } else { E::Or(Box::new(h), Box::new(h2)) }
+                } else {
+                    h
+                });
+            }
+            if self.rng.chance(1, 2) {
+                // a select list of its own over the aggregate row: any order, repeated columns, arithmetic, predicates
+                self.tag("agg.select-list");
+                let n = self.rng.range(1, 3) as usize;
+                let mut items: Vec<E> = (0..n)
+                    .map(|_| {
+                        let b = self.rng.chance(1, 5);
+                        over_row(self, b)
+                    })
+                    .collect();
+                // an aggregate that occurs nowhere in the text does not exist for the engine: show the unused ones
+                let mut used = Vec::new();
+                for e in items.iter().chain(q.having.iter()) {
+                    expr_cols(e, &mut used);
+                }
+                for j in nkeys..kinds.len() {
+                    if !used.contains(&j) {
+                        items.push(E::Col(j));
+                    }
+                }
+                let n = items.len();
+                nout = n;
+                avg_out = (0..n).filter(|i| matches!(&items[*i], E::Col(c) if kinds[*c] == 'v')).collect();
+                q.items = Some(items);
+            } else {
+                nout = kinds.len();
+                avg_out = (0..nout).filter(|i| kinds[*i] == 'v').collect();
+            }
+        } else {
         // projection
         self.safe_arith = risky != 2;
-        let nout;
         if self.rng.chance(1, 2) {
             nout = tys.len();
         } else {
@@ -1620,23 +1766,24 @@ impl<'a> Gen<'a> {
             nout = n;
             q.items = Some(items);
         }
+        }
         if self.rng.chance(1, 4) {
             self.tag("distinct");
             q.distinct = true;
         }
-        let k = order_kind;
-        if k < 3 {
+        let k = if !avg_out.is_empty() && (3..6).contains(&order_kind) { 0 } else { order_kind };
+        if k < 3 && avg_out.len() < nout {
             // partial order, no limit: ties are free
             self.tag("orderby.partial");
             let n = 1 + self.rng.below(2.min(nout as u64)) as usize;
-            let mut pos: Vec<usize> = (0..nout).collect();
+            let mut pos: Vec<usize> = (0..nout).filter(|i| !avg_out.contains(i)).collect();
             self.rng.shuffle(&mut pos);
             for p in pos.into_iter().take(n) {
                 let asc = self.rng.chance(1, 2);
                 self.tag(if asc { "orderby.asc" } else { "orderby.desc" });
                 q.order_by.push((p, asc));
             }
-        } else if k < 6 {
+        } else if (3..6).contains(&k) {
             // total order over all output columns, so that LIMIT / OFFSET have exactly one answer
             self.tag("orderby.total");
             let mut pos: Vec<usize> = (0..nout).collect();
@@ -1714,6 +1861,7 @@ impl<'a> Gen<'a> {
             order_by: vec![],
             limit: None,
             offset: None,
+            having: None,
         });
         vec![s, check]
     }
